@@ -328,7 +328,9 @@ Request::Request(void* buf, uint16_t buf_capacity, Verb v,
 
 int Request::reset(Verb v, std::string_view url, bool enable_proxy) {
     URL u(url);
-    if ((size_t)m_buf_capacity <= u.target().size() + 21 + verbstr[v].size())
+    // with a proxy the request line carries the full URL (scheme + host:port + target)
+    size_t url_size = enable_proxy ? full_url_size(u) : u.target().size();
+    if ((size_t)m_buf_capacity <= url_size + 21 + verbstr[v].size())
         LOG_ERROR_RETURN(ENOBUFS, -1, "out of buffer");
 
     LOG_DEBUG("request reset ", VALUE(u.host()), VALUE(enable_proxy));
